@@ -77,7 +77,8 @@ def _job_worker(job):
         job['text'] = job['text'].replace('@@GEN@@', text)
         # line numbers shift by the generated text
         shift = text.count('\n')
-        job['lines'] = {str(int(k) + shift): v for k, v in job['lines'].items()}
+        job['fn_contract'] = job['lines'].get('__fn_contract__', job['fn'])
+        job['lines'] = {str(int(k) + shift): v for k, v in job['lines'].items() if str(k).isdigit()}
         r = run_contract_job(job)
         r['translate'] = info
         failed = [n for n, st in r.get('clauses', {}).items() if st != 'SUCCESS' and n != '__canary']
@@ -94,7 +95,7 @@ def _job_worker(job):
                 text2 = text2 + '\n' + t3
             job2['text'] = job2['text'].replace('@@GEN@@', text2)
             shift2 = text2.count('\n')
-            job2['lines'] = {str(int(k) + shift2): v for k, v in job2['lines'].items()}
+            job2['lines'] = {str(int(k) + shift2): v for k, v in job2['lines'].items() if str(k).isdigit()}
             r2 = run_contract_job(job2)
             r2['translate'] = info2
             r2['refined_from_uf'] = failed
@@ -257,7 +258,16 @@ class Prop:
                 if not cand:
                     infra.append('%s: replaced callee %s has no contract in build %s' % (c.fn, callee, c.build))
                     continue
-                callee_contracts.append((cand[0], self.signature(cand[0], b)[0]))
+                try:
+                    callee_contracts.append((cand[0], self.signature(cand[0], b)[0]))
+                except Infra as e:
+                    infra.append('%s: replaced callee: %s' % (c.fn, e))
+                    callee_contracts = None
+                    break
+            if callee_contracts is None:
+                continue
+            if len(callee_contracts) != len(c.replace):
+                continue
             text, lines = harness_text(c, sig, '@@GEN@@', ensures_override=ens, rel_sigs=rel_sigs, keep_sigs=keep_sigs, callee_contracts=callee_contracts)
             jid = jid0
             uses_ir = []
